@@ -27,7 +27,7 @@ LEVEL = "fault_enumeration"
 BATCH = 1
 TIMEOUT = 900
 REQUIRED_OBS = ["scripts_run", "success_runs_checked", "failure_runs_checked", "recovered_after_failure", "odeint_runs",
-                "ladder_level_2_reached"]
+                "ladder_level_2_reached", "thermal_network_scripts"]
 RULE = ("fault scripts for the mock CVODE: first call in {ok, warning +1/+99, fail(flag, frac)}, then per recovery level "
         "{all ok, fail at sub-step s in {1, middle, last} with (flag, frac)}, flags {-1,-2,-3,-4,-6,-5,-7,-8,-22}, frac in "
         "{0, 0.37, 1-2^-52, 1}, optional failing CVodeReInit; exhaustive to depth 1 (quick) / 2 (thorough) plus random scripts "
@@ -126,7 +126,7 @@ def gen_cases(tier):
     rng.shuffle(scripts)
     nb = 12 if tier == "quick" else 30
     cases = []
-    targets = [("dense", "small"), ("sparse", "small"), ("dense", "empty"), ("sparse", "small")]
+    targets = [("dense", "small"), ("sparse", "small"), ("dense", "empty"), ("sparse", "thermal"), ("dense", "thermal"), ("sparse", "small")]
     for b in range(nb):
         be, netk = targets[b % len(targets)]
         cases.append({"kind": "cvode", "backend": be, "net": netk, "scripts": scripts[b::nb], "y0": [0.0, 1.0][b % 2]})
@@ -153,13 +153,18 @@ SMALL = {"species": [chem.make_species([("H", 1)]), chem.make_species([("H", 2)]
                        {"reactants": ["H2"], "products": ["H", "H"], "pseudo": "CR", "idx": 2}],
          "required": ["He"]}
 EMPTY = {"species": [], "reactions": [], "required": []}
+# NEQUATIONS = NSPECIES + 1: the temperature equation must be saved / restored by the ladder like any other component
+THERMAL = {"species": [chem.make_species([("H", 1)]), chem.make_species([("H", 1)], charge=1), chem.make_species([], electron="e-")],
+           "reactions": [{"reactants": ["H+", "e-"], "products": ["H"], "pseudo": None, "idx": 1}], "required": []}
 
 
 def run_case(case, ctx):
     obs, viol = Counter(), []
     work = ctx.fresh_dir("c19")
-    netd = SMALL if case["net"] == "small" else EMPTY
+    netd = {"small": SMALL, "empty": EMPTY, "thermal": THERMAL}[case["net"]]
     ncase = {"net": netd, "alphas": [1.5, 0.25][:len(netd["reactions"])], "entry": "api"}
+    if case["net"] == "thermal":
+        ncase["cooling"] = ["CIC_HI", "RC_HII"]
     try:
         net = S.build_network(ncase, work)
         be = case.get("backend", "odeint") if case["kind"] == "cvode" else "odeint"
@@ -175,6 +180,8 @@ def run_case(case, ctx):
     r0 = lab.run_driver(b["exe"], ["info"], work / "b")
     n_eq = r0.by_ev("info")[0]["NEQUATIONS"]
     y0 = [case["y0"] + 0.125 * i for i in range(n_eq)]
+    if case["net"] == "thermal":
+        y0 = [case["y0"] + 1.0 + 0.125 * i for i in range(n_eq)]       # positive abundances / temperature: the real Fex divides by the particle density
     cmds = ["set nH 100", "set Tgas 50", "y " + " ".join(lab.fmt(v) for v in y0)]
     scripts = case["scripts"]
     for sc in scripts:
@@ -195,6 +202,8 @@ def run_case(case, ctx):
     nontrivial = False
     for sc, ev in zip(scripts, solves):
         obs["scripts_run"] += 1
+        if case["net"] == "thermal":
+            obs["thermal_network_scripts"] += 1
         dt = sc["dt"]
         adv = [a - b0 for a, b0 in zip(ev["ab"], y0)]
         tol = 1e-9 * dt + 4e-16 * (abs(case["y0"]) + n_eq + dt)
